@@ -1,6 +1,9 @@
 import CollectionsC.Driver.Cmd
 import CollectionsC.Spec.LSeq
 import CollectionsC.Model.SList
+import CollectionsC.Model.PSList
+import Std.Data.HashMap
+import Std.Data.HashSet
 -- container: slist
 namespace CC.Driver.SListD
 open CC CC.Driver
@@ -19,6 +22,11 @@ structure Sess where
   it  : SList.Iter := {}
   zit : SList.ZipIter := {}
   sit : LSeq.Cursor := {}
+  pst : PList.St := {}                              -- pointer-level model (Model/PSList.lean), run alongside
+  phd : List (Option PList.Hdr) := [none, none, none, none]
+  disp : Std.HashMap Nat Nat := {}                  -- node id -> display id (first-seen order, as the shim numbers the C nodes)
+  dnext : Nat := 0
+  pbad : String := ""
   sparse : Bool := false     -- `obs=sparse` on a constructor line (CONVENTIONS, Addendum 2)
   obsNow : Bool := false     -- the current operation is `observe`
 
@@ -58,17 +66,34 @@ def phys1 (s : Sess) (k : Nat) (l : Chain) : String :=
   (if s.itKind == 3 && (s.itO == k || s.itO2 == k) then
      let a := s.itO == k
      s!" zitidx{k}={s.zit.index} zitcur{k}={fmtPtr n (if a then s.zit.cur1 else s.zit.cur2)} zitprev{k}={fmtPtr n (if a then s.zit.prev1 else s.zit.prev2)} zitnext{k}={fmtPtr n (if a then s.zit.next1 else s.zit.next2)}" else "")
-def phys (s : Sess) : String := joinLive s.model (phys1 s) "-"
+/-- ids along `next` from `p`, stopping at NULL or when the fuel is used up -/
+def pWalk (h : PList.Heap) : Nat → Option Nat → List Nat → List Nat
+  | 0, _, acc => acc.reverse
+  | _, none, acc => acc.reverse
+  | k + 1, some id, acc => pWalk h k (PList.nd h id).next (id :: acc)
+def fmtDisp (s : Sess) : Option Nat → String
+  | none => "-"
+  | some id => match s.disp.get? id with | some d => toString d | none => "?"
+/-- the raw link structure of slot `k`: every node on the `next` chain from `head` as `id:data:next` -/
+def links1 (s : Sess) (k : Nat) : String :=
+  match s.phd.getD k none with
+  | none => s!" links{k}=? hd{k}=? tl{k}=?"
+  | some hd =>
+    let ids := pWalk s.pst.heap (hd.size + 4) hd.head []
+    let item (id : Nat) := let n := PList.nd s.pst.heap id; s!"{fmtDisp s (some id)}:{n.data}:{fmtDisp s n.next}"
+    s!" links{k}=[{",".intercalate (ids.map item)}] hd{k}={fmtDisp s hd.head} tl{k}={fmtDisp s hd.tail}"
+def phys (s : Sess) : String := joinLive s.model (fun k l => phys1 s k l ++ links1 s k) "-" ++ s.pbad
 
 def inv (s : Sess) : Bool := s.model.all fun o => match o with | none => true | some l => decide l.Inv
 
-/-- the two output lines for the state `s` after the operation -/
+/-- the spec line and the head of the model line for the state `s` after the operation; `step` appends
+` | phys | mem | flags` once the pointer-level model has been advanced as well -/
 def fin (s : Sess) (hdS hdM : String) : Sess × String × String :=
-  (s, s!"S {hdS} {obsS s}", s!"M {hdM} {obsM s} | {phys s} | {fmtMem s.mem} | {fmtFlags (inv s) s.mem}")
+  (s, s!"S {hdS} {obsS s}", s!"M {hdM} {obsM s}")
 def fin1 (s : Sess) (hd : String) : Sess × String × String := fin s hd hd
 /-- `st=- nosession`: obs carries no content -/
-def noSess (s : Sess) (ph : String) : Sess × String × String :=
-  (s, "S st=- nosession", s!"M st=- nosession | {ph} | {fmtMem s.mem} | {fmtFlags (inv s) s.mem}")
+def noSess (s : Sess) (_ph : String) : Sess × String × String :=
+  (s, "S st=- nosession", "M st=- nosession")
 
 def getM (s : Sess) (k : Nat) : Option Chain := (s.model.getD k none)
 def getS (s : Sess) (k : Nat) : Option (List Nat) := (s.spec.getD k none)
@@ -81,6 +106,10 @@ def hOut (st : Stat) (o : Option Nat) : String :=
   match o with | some v => if st == .ok then s!"{fmtStat st} out={v}" else fmtStat st | none => fmtStat st
 def hOut2 (st : Stat) (o : Option (Nat × Nat)) : String :=
   match o with | some v => if st == .ok then s!"{fmtStat st} out={v.1} out2={v.2}" else fmtStat st | none => fmtStat st
+
+/-- `noout=1`: the optional out-pointer(s) were NULL, nothing is reported besides the status -/
+def hOutN (c : Cmd) (st : Stat) (o : Option Nat) : String := if c.nat "noout" 0 != 0 then fmtStat st else hOut st o
+def hOut2N (c : Cmd) (st : Stat) (o : Option (Nat × Nat)) : String := if c.nat "noout" 0 != 0 then fmtStat st else hOut2 st o
 
 def pickCmp (c : Cmd) : Nat → Nat → Int := if c.str "cmp" == some "key" then LSeq.cmpKey else LSeq.cmpNum
 
@@ -139,13 +168,13 @@ def iterStep (s : Sess) (c : Cmd) (m : Mem) : Sess × String × String :=
           let sx3 := setM (setM s s.itO (some r.2.2.1)) s.itO2 (some r.2.2.2.1)
           let s' := { sx3 with zit := (r.2.2.2.2.1), mem := (r.2.2.2.2.2), itChanged := if r.1 == .ok then true else s.itChanged }
           let sx4 := setS (setS s' s.itO (some rs.2.2.1)) s.itO2 (some rs.2.2.2.1)
-          fin { sx4 with sit := (rs.2.2.2.2) } (hOut2 rs.1 rs.2.1) (hOut2 r.1 r.2.1)
+          fin { sx4 with sit := (rs.2.2.2.2) } (hOut2N c rs.1 rs.2.1) (hOut2N c r.1 r.2.1)
         | "replace" =>
           let r := SList.zipReplace l1 l2 z (c.arg 0) (c.arg 1) m
           let rs := LSeq.zitReplace a1 a2 s.sit (c.arg 0) (c.arg 1)
           let sx5 := setM (setM s s.itO (some r.2.2.1)) s.itO2 (some r.2.2.2.1)
           let s' := { sx5 with mem := (r.2.2.2.2) }
-          fin (setS (setS s' s.itO (some rs.2.2.1)) s.itO2 (some rs.2.2.2)) (hOut2 rs.1 rs.2.1) (hOut2 r.1 r.2.1)
+          fin (setS (setS s' s.itO (some rs.2.2.1)) s.itO2 (some rs.2.2.2)) (hOut2N c rs.1 rs.2.1) (hOut2N c r.1 r.2.1)
         | "index" => fin s s!"st=- out={LSeq.itIndex s.sit}" s!"st=- out={SList.zipIndex z}"
         | _ => fin1 s "st=- badop"
       | _, _, _, _ => fin1 s "st=- noiter"
@@ -175,19 +204,19 @@ def iterStep (s : Sess) (c : Cmd) (m : Mem) : Sess × String × String :=
           let sx8 := setM s s.itO (some r.2.2.1)
           let s' := { sx8 with it := (r.2.2.2.1), mem := (r.2.2.2.2), itChanged := if r.1 == .ok then true else s.itChanged }
           let sx9 := setS s' s.itO (some rs.2.2.1)
-          fin { sx9 with sit := (rs.2.2.2) } (hOut rs.1 rs.2.1) (hOut r.1 r.2.1)
+          fin { sx9 with sit := (rs.2.2.2) } (hOutN c rs.1 rs.2.1) (hOutN c r.1 r.2.1)
         | "replace" =>
           let r := SList.iterReplace l it (c.arg 0) m
           let rs := LSeq.itReplace a s.sit (c.arg 0)
           let sx10 := setM s s.itO (some r.2.2.1)
-          fin (setS { sx10 with mem := (r.2.2.2) } s.itO (some rs.2.2)) (hOut rs.1 rs.2.1) (hOut r.1 r.2.1)
+          fin (setS { sx10 with mem := (r.2.2.2) } s.itO (some rs.2.2)) (hOutN c rs.1 rs.2.1) (hOutN c r.1 r.2.1)
         | "index" =>
           fin s s!"st=- out={LSeq.itIndex s.sit}" s!"st=- out={SList.iterIndex it}"
         | _ => fin1 s "st=- badop"
       | _, _ => fin1 s "st=- noiter"
 
-/-- returns the new session, the spec line and the model line -/
-def step (s : Sess) (c : Cmd) : Sess × String × String :=
+/-- the sequence-level models: new session, spec line, head of the model line -/
+def stepCore (s : Sess) (c : Cmd) : Sess × String × String :=
   let k := c.nat "o" 0
   let m := s.mem.begin c.sched
   let from_ := c.nat "from" 1
@@ -256,7 +285,7 @@ def step (s : Sess) (c : Cmd) : Sess × String × String :=
                else if c.op == "remove_first" then SList.removeFirst l m else SList.removeLast l m
       let q := if c.op == "remove" then LSeq.remove a v else if c.op == "remove_at" then LSeq.removeAt a idx
                else if c.op == "remove_first" then LSeq.removeFirst a else LSeq.removeLast a
-      fin (setMS s k r.2.2.1 q.2.2 r.2.2.2) (hOut q.1 q.2.1) (hOut r.1 r.2.1)
+      fin (setMS s k r.2.2.1 q.2.2 r.2.2.2) (hOutN c q.1 q.2.1) (hOutN c r.1 r.2.1)
     | "remove_all" | "remove_all_cb" =>
       let r := SList.removeAll l m
       let q := LSeq.removeAll a
@@ -265,7 +294,7 @@ def step (s : Sess) (c : Cmd) : Sess × String × String :=
     | "replace_at" =>
       let r := SList.replaceAt l v idx m
       let q := LSeq.replaceAt a v idx
-      fin (setMS s k r.2.2.1 q.2.2 r.2.2.2) (hOut q.1 q.2.1) (hOut r.1 r.2.1)
+      fin (setMS s k r.2.2.1 q.2.2 r.2.2.2) (hOutN c q.1 q.2.1) (hOutN c r.1 r.2.1)
     | "get_first" | "get_last" | "get_at" =>
       let r := if c.op == "get_first" then SList.getFirst l m else if c.op == "get_last" then SList.getLast l m else SList.getAt l idx m
       let q := if c.op == "get_first" then LSeq.getFirst a else if c.op == "get_last" then LSeq.getLast a else LSeq.getAt a idx
@@ -320,5 +349,109 @@ def step (s : Sess) (c : Cmd) : Sess × String × String :=
   | _, _ =>
     let s := { s with mem := m }
     noSess s (phys s)
+
+/-! ### the pointer-level model alongside -/
+
+def plUnsupported : List String :=
+  ["sort", "filter_mut", "mk_sub", "mk_copy_shallow", "mk_copy_deep", "mk_filter",
+   "it_add", "it_remove", "it_replace", "zit_add", "zit_remove", "zit_replace"]
+
+/-- rebuild the pointer-level state from the sequence-level one (fresh nodes, linked canonically) -/
+def resync (s : Sess) : Sess :=
+  let build (acc : PList.St × List (Option PList.Hdr)) (o : Option Chain) : PList.St × List (Option PList.Hdr) :=
+    match o with
+    | none => (acc.1, acc.2 ++ [none])
+    | some l =>
+      let n := l.nodes.length
+      let base := acc.1.fresh
+      let heap0 := acc.1.heap
+      let tbl : Std.HashMap Nat PList.PNode := Std.HashMap.ofList ((List.range n).map fun i =>
+        (base + i, { data := l.nodes.getD i 0, next := if i + 1 < n then some (base + i + 1) else none, prev := none }))
+      let heap : PList.Heap := ⟨fun j => match tbl.get? j with | some nd => some nd | none => heap0 j⟩
+      ({ heap := heap, fresh := base + n },
+       acc.2 ++ [some { size := l.size, head := l.head.map (base + ·), tail := l.tail.map (base + ·), triple := l.triple }])
+  let r := s.model.foldl build ({ heap := {}, fresh := s.pst.fresh }, [])
+  { s with pst := r.1, phd := r.2, disp := {} }
+
+def setP (s : Sess) (k : Nat) (st : PList.St) (h : Option PList.Hdr) : Sess := { s with pst := st, phd := s.phd.set k h }
+def chk (s : Sess) (m : Mem) : Sess := if fmtMem m == fmtMem s.mem then s else { s with pbad := " PMEM=differs" }
+
+/-- advance the pointer-level model: `old` is the session before the operation, `s` after it -/
+def plStep (old s : Sess) (c : Cmd) : Sess :=
+  let k := c.nat "o" 0
+  let m := old.mem.begin c.sched
+  let from_ := c.nat "from" 1
+  let to := c.nat "to" 1
+  let v := c.arg 0
+  let idx := c.nat "idx" 0
+  if k ≥ NSLOT || from_ ≥ NSLOT || to ≥ NSLOT then s else
+  if plUnsupported.contains c.op then resync s else
+  if c.op == "new" || c.op == "new_default" then
+    if (getM old k).isSome then s else
+    let r := PSList.new (if c.op == "new_default" then .libc else .conf) m
+    chk (setP s k s.pst r.2.1) r.2.2
+  else if c.op == "destroy" || c.op == "destroy_cb" then
+    let r := (List.range NSLOT).foldl (fun (acc : PList.St × Mem) j =>
+      match old.phd.getD j none with
+      | none => acc
+      | some h => let d := PSList.destroy acc.1 h acc.2; (d.2.1, d.2.2)) (s.pst, m)
+    chk { s with pst := r.1, phd := [none, none, none, none] } r.2
+  else
+  match old.phd.getD k none, getM old k with
+  | some h, some _ =>
+    match c.op with
+    | "drop" | "drop_cb" => let d := PSList.destroy s.pst h m; chk (setP s k d.2.1 none) d.2.2
+    | "add" | "add_last" | "add_first" | "add_at" =>
+      let r := if c.op == "add_first" then PSList.addFirst s.pst h v m else if c.op == "add_at" then PSList.addAt s.pst h v idx m
+               else PSList.addLast s.pst h v m
+      chk (setP s k r.2.1 (some r.2.2.1)) r.2.2.2
+    | "add_all" | "add_all_at" | "splice" | "splice_at" =>
+      match old.phd.getD from_ none with
+      | some h2 =>
+        if from_ == k then s else
+        if c.op == "add_all" || c.op == "add_all_at" then
+          let r := if c.op == "add_all" then PSList.addAll s.pst h h2 m else PSList.addAllAt s.pst h h2 idx m
+          chk (setP s k r.2.1 (some r.2.2.1)) r.2.2.2
+        else
+          let r := if c.op == "splice" then PSList.splice s.pst h h2 m else PSList.spliceAt s.pst h h2 idx m
+          chk (setP (setP s k r.2.1 (some r.2.2.1)) from_ r.2.1 (some r.2.2.2.1)) r.2.2.2.2
+      | none => s
+    | "remove" | "remove_at" | "remove_first" | "remove_last" =>
+      let r := if c.op == "remove" then PSList.remove s.pst h v m else if c.op == "remove_at" then PSList.removeAt s.pst h idx m
+               else if c.op == "remove_first" then PSList.removeFirst s.pst h m else PSList.removeLast s.pst h m
+      chk (setP s k r.2.2.1 (some r.2.2.2.1)) r.2.2.2.2
+    | "remove_all" | "remove_all_cb" =>
+      let r := PSList.removeAll s.pst h m
+      chk (setP s k r.2.2.1 (some r.2.2.2.1)) r.2.2.2.2
+    | "replace_at" =>
+      let r := PSList.replaceAt s.pst h v idx m
+      chk (setP s k r.2.2.1 (some r.2.2.2.1)) r.2.2.2.2
+    | "reverse" => let r := PSList.reverse s.pst h; setP s k r.1 (some r.2)
+    | _ => s
+  | _, _ => s
+
+/-- number the nodes the way the shim does: walk every live slot in ascending order along `next` from `head`;
+a node seen in the previous walk keeps its display id, a new one gets the next number; also drop the closure
+chain of the heap (only reachable nodes are kept) -/
+def relabel (s : Sess) : Sess :=
+  let walk (acc : List Nat × Std.HashSet Nat) (o : Option PList.Hdr) : List Nat × Std.HashSet Nat :=
+    match o with
+    | none => acc
+    | some h => (pWalk s.pst.heap (h.size + 4) h.head []).foldl (fun (a : List Nat × Std.HashSet Nat × Bool) id =>
+        if a.2.2 || a.2.1.contains id then (a.1, a.2.1, true) else (id :: a.1, a.2.1.insert id, false)) (acc.1, acc.2, false)
+        |> fun a => (a.1, a.2.1)
+  let ids := (s.phd.foldl walk ([], {})).1.reverse
+  let r := ids.foldl (fun (acc : Std.HashMap Nat Nat × Nat) id =>
+    match s.disp.get? id with
+    | some d => (acc.1.insert id d, acc.2)
+    | none => (acc.1.insert id acc.2, acc.2 + 1)) (({} : Std.HashMap Nat Nat), s.dnext)
+  let tbl : Std.HashMap Nat PList.PNode := Std.HashMap.ofList (ids.filterMap fun id => (s.pst.heap id).map (id, ·))
+  { s with disp := r.1, dnext := r.2, pst := { s.pst with heap := ⟨fun j => tbl.get? j⟩ } }
+
+/-- returns the new session, the spec line and the model line -/
+def step (s : Sess) (c : Cmd) : Sess × String × String :=
+  let r := stepCore s c
+  let s' := relabel (plStep s r.1 c)
+  (s', r.2.1, r.2.2 ++ s!" | {phys s'} | {fmtMem s'.mem} | {fmtFlags (inv s') s'.mem}")
 
 end CC.Driver.SListD
